@@ -404,6 +404,145 @@ def keyword_arguments(scratch: str) -> List[str]:
     return _rewrite(scratch, transform)
 
 
+# ------------------------------------------------------------------ inline temporaries
+_PURE_HEADS = ("np", "numpy", "math", "cmath", "operator")
+_PURE_BUILTINS = {"len", "int", "float", "complex", "abs", "max", "min", "sum", "round", "range",
+                  "tuple", "list", "str", "bool", "sorted", "zip", "enumerate", "isinstance"}
+
+
+def _pure(e: ast.AST) -> bool:
+    for x in ast.walk(e):
+        if isinstance(x, (ast.Lambda, ast.NamedExpr, ast.Await, ast.Yield, ast.YieldFrom,
+                          ast.ListComp, ast.DictComp, ast.SetComp, ast.GeneratorExp, ast.Starred)):
+            return False
+        if isinstance(x, ast.Call):
+            f = x.func
+            if isinstance(f, ast.Name) and f.id in _PURE_BUILTINS:
+                continue
+            if isinstance(f, ast.Attribute):
+                head = f
+                while isinstance(head, ast.Attribute):
+                    head = head.value
+                if isinstance(head, ast.Name) and head.id in _PURE_HEADS:
+                    continue
+            return False
+    return True
+
+
+class _Inliner(ast.NodeTransformer):
+    """`t = <pure expression>; <next statement using t once>` -> the next statement with the
+    expression written out, when t is assigned once and read once in the whole function (and
+    not mentioned in a nested scope)."""
+
+    def visit_FunctionDef(self, node):
+        self.generic_visit(node)
+        stores: Dict[str, int] = {}
+        loads: Dict[str, int] = {}
+        for x in ast.walk(node):
+            if isinstance(x, ast.Name):
+                if isinstance(x.ctx, ast.Store):
+                    stores[x.id] = stores.get(x.id, 0) + 1
+                elif isinstance(x.ctx, ast.Load):
+                    loads[x.id] = loads.get(x.id, 0) + 1
+            elif isinstance(x, (ast.Global, ast.Nonlocal)):
+                for n in x.names:
+                    stores[n] = 99
+        nested = _mentioned_in_nested_scopes(node)
+        params = {a.arg for a in node.args.args + node.args.kwonlyargs}
+        cand = {n for n in stores if stores[n] == 1 and loads.get(n, 0) == 1
+                and n not in nested and n not in params}
+
+        def block(stmts):
+            out = []
+            i = 0
+            while i < len(stmts):
+                st = stmts[i]
+                nxt = stmts[i + 1] if i + 1 < len(stmts) else None
+                if isinstance(st, ast.Assign) and len(st.targets) == 1 \
+                        and isinstance(st.targets[0], ast.Name) and st.targets[0].id in cand \
+                        and _pure(st.value) and nxt is not None \
+                        and not isinstance(nxt, (ast.For, ast.While, ast.If, ast.With, ast.Try,
+                                                 ast.FunctionDef, ast.ClassDef)):
+                    name = st.targets[0].id
+                    uses = [x for x in ast.walk(nxt) if isinstance(x, ast.Name) and x.id == name
+                            and isinstance(x.ctx, ast.Load)]
+                    # names the expression reads must not be re-bound by the next statement
+                    rebound = {x.id for x in ast.walk(nxt) if isinstance(x, ast.Name)
+                               and isinstance(x.ctx, ast.Store)}
+                    reads = {x.id for x in ast.walk(st.value) if isinstance(x, ast.Name)}
+                    if len(uses) == 1 and not (rebound & reads) and not isinstance(nxt, ast.AugAssign):
+                        import copy
+                        value = st.value
+
+                        class Sub(ast.NodeTransformer):
+                            def visit_Name(self, n):
+                                if n.id == name and isinstance(n.ctx, ast.Load):
+                                    return copy.deepcopy(value)
+                                return n
+                        out.append(Sub().visit(nxt))
+                        i += 2
+                        continue
+                out.append(st)
+                i += 1
+            return out
+        for x in ast.walk(node):
+            for field in ("body", "orelse", "finalbody"):
+                b = getattr(x, field, None)
+                if isinstance(b, list) and b and isinstance(b[0], ast.stmt):
+                    setattr(x, field, block(b))
+        return node
+
+
+def inline_temporaries(scratch: str) -> List[str]:
+    """A local assigned once from a call-free / numpy-only expression and read once, in the
+    statement that follows, is written out at its use."""
+    return _rewrite(scratch, lambda tree, src, full: _Inliner().visit(tree))
+
+
+# ------------------------------------------------------------------ tuple unpacking
+class _Unpacker(ast.NodeTransformer):
+    """`a, b = f(x)` -> `r1_ = f(x); a = r1_[0]; b = r1_[1]` for assignments of a call result
+    to a flat tuple of plain names (functions of this code base return tuples or lists there)."""
+
+    def __init__(self):
+        self.k = 0
+
+    def _block(self, stmts):
+        out = []
+        for st in stmts:
+            if isinstance(st, ast.Assign) and len(st.targets) == 1 \
+                    and isinstance(st.targets[0], ast.Tuple) \
+                    and all(isinstance(e, ast.Name) for e in st.targets[0].elts) \
+                    and isinstance(st.value, ast.Call) \
+                    and not (isinstance(st.value.func, ast.Name)
+                             and st.value.func.id in ("zip", "map", "iter", "enumerate", "reversed")):
+                self.k += 1
+                tmp = f"r{self.k}_"
+                out.append(ast.copy_location(ast.Assign(
+                    targets=[ast.Name(id=tmp, ctx=ast.Store())], value=st.value), st))
+                for i, e in enumerate(st.targets[0].elts):
+                    out.append(ast.copy_location(ast.Assign(
+                        targets=[ast.Name(id=e.id, ctx=ast.Store())],
+                        value=ast.Subscript(value=ast.Name(id=tmp, ctx=ast.Load()),
+                                            slice=ast.Constant(value=i), ctx=ast.Load())), st))
+            else:
+                out.append(st)
+        return out
+
+    def generic_visit(self, node):
+        super().generic_visit(node)
+        for field in ("body", "orelse", "finalbody"):
+            b = getattr(node, field, None)
+            if isinstance(b, list) and b and isinstance(b[0], ast.stmt):
+                setattr(node, field, self._block(b))
+        return node
+
+
+def index_unpacking(scratch: str) -> List[str]:
+    """Tuple unpacking of call results replaced by indexing a temporary."""
+    return _rewrite(scratch, lambda tree, src, full: _Unpacker().visit(tree))
+
+
 def all_rewrites(scratch: str) -> List[str]:
     """All rewrites applied one after the other (temporaries first, so that they are renamed
     like every other local)."""
